@@ -15,8 +15,8 @@ from .filefam import Family, is_call_to, run_typestate
 
 def run(prog: Program, rep: Report, include_mixins: bool = True):
     fam = Family(prog)
-    r1_owner(prog, rep, fam, include_mixins)
-    r2_helper(prog, rep, fam)
+    rep.attempt(lambda: r1_owner(prog, rep, fam, include_mixins))
+    rep.attempt(lambda: r2_helper(prog, rep, fam))
 
 
 def r1_owner(prog, rep: Report, fam: Family, include_mixins: bool):
